@@ -583,6 +583,33 @@ func c03Redispatch(c *Ctx) {
 		if n < 2 {
 			c.Fail(rule, fn, "abort-triggers-each", nil, fmt.Sprintf("expected two trigger loops in abort (current and pending subscriptions), found %d", n), nil)
 		}
+		// the aborted worker keeps serving bc.newSubscriptions until that channel is closed (its last reference is
+		// gone): the loop over it has no other way out.  A partition consumer that was unsubscribed for the moment
+		// (slow reader, errTimedOut) re-subscribes later and must still be told to move on
+		for _, l := range fi.Loops {
+			isSubs := false
+			for _, in := range l.Head.Instrs {
+				if u, ok := in.(*ssa.UnOp); ok && u.Op == token.ARROW && FieldLoad("brokerConsumer.newSubscriptions")(u.X) {
+					isSubs = true
+				}
+			}
+			for b := range l.Blocks {
+				for _, in := range b.Instrs {
+					if u, ok := in.(*ssa.UnOp); ok && u.Op == token.ARROW && FieldLoad("brokerConsumer.newSubscriptions")(u.X) && b == l.Head {
+						isSubs = true
+					}
+				}
+			}
+			if !isSubs {
+				continue
+			}
+			bad := earlyExit(fi, l)
+			var at ssa.Instruction
+			if bad != nil {
+				at = lastInstr(bad)
+			}
+			c.Check(bad == nil, rule, fn, "abort-serves-until-closed", at, "the aborted worker leaves its loop over newSubscriptions only when the channel is closed", "the aborted worker can leave its loop over bc.newSubscriptions while partition consumers still reference it: one that re-subscribes later (a slow reader that was unsubscribed with errTimedOut) is buffered by the subscription manager and never told to find a new broker — it stalls for ever without an error and its Close hangs", nil)
+		}
 	}
 }
 
